@@ -210,6 +210,10 @@ def run(ctx):
             g = bnp.Genome.from_dict({n: len(sq) for n, sq in chroms})
             seq = GenomicSequence.from_dict(d)
             results = [("[]", lambda: seq[g.get_intervals(table, stranded=True)]), ("extract_intervals", lambda: seq.extract_intervals(table, stranded=True))]
+            if len(ivs) >= 2:
+                # the stranded interval set put together from two parts with np.concatenate
+                cutc = max(1, len(ivs) // 2)
+                results.append(("[concatenated-interval-sets]", lambda: seq[np.concatenate([g.get_intervals(table[:cutc], stranded=True), g.get_intervals(table[cutc:], stranded=True)])]))
         grouped = all(ivs[i][0] == ivs[i + 1][0] or ivs[i + 1][0] not in [x[0] for x in ivs[:i + 1]] for i in range(len(ivs) - 1))
         for how, fn in results:
             res = fn()
